@@ -731,6 +731,20 @@ func (vc *FnVC) selectInstr(x *ssa.Select) {
 	}
 	vc.assume(vc.b(), and(app("<=", lo, idx), app("<", idx, fmt.Sprint(len(x.States)))))
 	vc.tuples[x] = tup
+	// a send case that is chosen is a "select.send" site, a receive case a "select.recv" site (for ghost accounting)
+	for i, st := range x.States {
+		name := "select.recv"
+		if st.Dir == types.SendOnly {
+			name = "select.send"
+		}
+		before := vc.cur
+		args := []TV{{t: vc.val(st.Chan), ty: st.Chan.Type()}}
+		after := vc.applyCallGhostsX(name, args, nil, before, nil)
+		if after != before {
+			chosen := app("=", idx, fmt.Sprint(i))
+			vc.cur = joinMems(vc.e, vc.emit, []*Mem{after, before}, []Term{chosen, not(chosen)})
+		}
+	}
 }
 
 func (vc *FnVC) runDefers() {
